@@ -13,9 +13,10 @@ PROPERTY = "C11"
 LEVEL = "exploration"
 
 # two fixed values per role (first differs from every default; locations include 0)
-FIXVAL = {"scale": (1.7, 0.6), "shape": (1.3, 2.2), "loc": (0.0, 0.25), "mu": (0.45, -0.2), "sigma": (0.45, 0.8),
-          "delta": (2.5, 0.7), "kappa": (2.5, 0.8), "lambda": (0.6, 1.4), "mean": (1.8, 2.6), "std": (0.9, 0.5),
-          "vmu": (0.3, -0.4)}
+# third value: exactly 0 (int and float spellings are falsy!) for every location-like role, 1 for the others (= a default)
+FIXVAL = {"scale": (1.7, 0.6, 1), "shape": (1.3, 2.2, 1), "loc": (0.0, 0.25, 0), "mu": (0.45, -0.2, 0.0), "sigma": (0.45, 0.8, 1),
+          "delta": (2.5, 0.7, 1), "kappa": (2.5, 0.8, 1), "lambda": (0.6, 1.4, 1), "mean": (1.8, 2.6, 1), "std": (0.9, 0.5, 1),
+          "vmu": (0.3, -0.4, 0)}
 TRUE = {"WeibullDistribution": dict(alpha=1.5, beta=1.6, gamma=0.5),
         "LogNormalDistribution": dict(mu=0.5, sigma=0.4),
         "NormalDistribution": dict(mu=0.5, sigma=0.6),
@@ -211,7 +212,7 @@ def _lin(a0):
 
 def main(ctx):
     ctx.rule = ("complete product: family (10) x every non-empty subset of parameters fixed (proper subsets for fitting; "
-                "the full set for construction/evaluation) x 2 fixed values per parameter x stage {construction+"
+                "the full set for construction/evaluation) x 3 fixed values per parameter (one of them exactly 0 for every location-like parameter) x stage {construction+"
                 "evaluation+conditional wrapper, fit, ConditionalDistribution.fit, GlobalHierarchicalModel.fit} x "
                 "method {mle; lsq, wlsq for the exponentiated Weibull} x data {own family (2 seeds), other family} x "
                 "n in {200, 2000}. All cases count as non-trivial except refused unsupported combinations.")
@@ -221,7 +222,7 @@ def main(ctx):
     for fam, (cls, names, roles) in zoo.FAMILIES.items():
         for k in range(1, len(names) + 1):
             for fx in itertools.combinations(names, k):
-                for which in (0, 1):
+                for which in (0, 1, 2):
                     cases.append({"family": fam, "fixed": list(fx), "which": which, "mode": "construct"})
                     if k == len(names):
                         continue
